@@ -233,4 +233,79 @@ func c17(r *core.Report, p *core.Prog, thorough bool) {
 		}
 		r.Floor("C17.windows", fn.Name()+" resets", n, 1)
 	}
+	// a save of the faucet's global or user node never drops its counter: what is written is the
+	// object that was loaded, or a freshly built one that carries Used and StartTime over
+	c17SavedCarriesCounters(r, p)
+
+}
+
+// c17SavedCarriesCounters: every InsertTrieNode of a GlobalNode / UserNode in the faucet
+// contract writes a loaded object or a literal that sets Used and StartTime.
+func c17SavedCarriesCounters(r *core.Report, p *core.Prog) {
+	n := 0
+	for _, fn := range p.FuncsIn(pkgFaucet) {
+		if fn.Blocks == nil || isTooling(p, fn) {
+			continue
+		}
+		for _, b := range fn.Blocks {
+			for _, in := range b.Instrs {
+				c, ok := in.(*ssa.Call)
+				if !ok || core.MethodName(c.Common()) != "InsertTrieNode" {
+					continue
+				}
+				args := core.CallArgs(c.Common())
+				v := args[len(args)-1]
+				if mi, ok := v.(*ssa.MakeInterface); ok {
+					v = mi.X
+				}
+				tn := core.NamedName(v.Type())
+				if !strings.HasSuffix(tn, ".GlobalNode") && !strings.HasSuffix(tn, ".UserNode") {
+					continue
+				}
+				n++
+				key := fmt.Sprintf("%s:save#%d", fn.Name(), n)
+				al, isLit := canonObj(v).(*ssa.Alloc)
+				if isLit {
+					// the decode target of GetTrieNode is the loaded object, not a rebuilt one
+					for _, ref := range *al.Referrers() {
+						if gc, ok := ref.(*ssa.Call); ok && core.MethodName(gc.Common()) == "GetTrieNode" {
+							isLit = false
+						}
+						if mi, ok := ref.(*ssa.MakeInterface); ok {
+							for _, r2 := range *mi.Referrers() {
+								if gc, ok := r2.(*ssa.Call); ok && core.MethodName(gc.Common()) == "GetTrieNode" {
+									isLit = false
+								}
+							}
+						}
+					}
+				}
+				if !isLit {
+					r.Pass("C17.windows", key, p.Pos(c.Pos()), "saves the loaded object "+describe(v))
+					continue
+				}
+				set := map[string]bool{}
+				for _, ref := range *al.Referrers() {
+					if fa, ok := ref.(*ssa.FieldAddr); ok {
+						for _, r2 := range *fa.Referrers() {
+							if st, ok := r2.(*ssa.Store); ok && st.Addr == ssa.Value(fa) && core.FieldOf(fa) != nil {
+								set[core.FieldOf(fa).Name()] = true
+							}
+						}
+					}
+				}
+				// a brand-new node (nothing stored before) may start its counters at zero: the
+				// literal is then built where the stored one was found missing
+				fresh := false
+				for _, f := range core.FactsAt(c.Block()) {
+					cv, taken := stripNot(f.Cond, f.Taken)
+					if bo, ok := cv.(*ssa.BinOp); ok && ((bo.Op == token.EQL && taken) || (bo.Op == token.NEQ && !taken)) && (strings.Contains(describe(bo.X), "ErrValueNotPresent") || strings.Contains(describe(bo.Y), "ErrValueNotPresent")) {
+						fresh = true
+					}
+				}
+				r.Check(fresh || (set["Used"] && set["StartTime"]), "C17.windows", key, p.Pos(c.Pos()), fmt.Sprintf("a rebuilt node that is saved carries the running counter and its window start (fields set: %v); dropping Used restarts the limit inside the window", sortedKeys(set)))
+			}
+		}
+	}
+	r.Floor("C17.windows", "faucet node saves", n, 3)
 }
